@@ -20,10 +20,14 @@ Hole == << <<2, 2>>, <<3, 2>>, <<3, 3>>, <<2, 3>> >>
 BoxR == << <<1, 2>>, <<5, 2>>, <<5, 5>>, <<1, 5>> >>
 Far == << <<4, 4>>, <<6, 4>>, <<6, 6>>, <<4, 6>> >>
 SmallTri == << <<0, 0>>, <<2, 0>>, <<0, 2>> >>
+(* a hole that is a thin quadrilateral along the rising diagonal: a line along the falling diagonal crosses it although the
+   lower-left and upper-right corners of the line's box are both inside the hole *)
+Outer6 == << <<0, 0>>, <<6, 0>>, <<6, 6>>, <<0, 6>> >>
+SliverH == << <<1, 1>>, <<3, 2>>, <<5, 5>>, <<2, 3>> >>
 Polys == { [t |-> "Polygon", polys |-> << <<Tri>> >>], [t |-> "Polygon", polys |-> << <<Quad>> >>],
            [t |-> "Polygon", polys |-> << <<Concave>> >>], [t |-> "Polygon", polys |-> << <<Quad, Hole>> >>],
            [t |-> "Bounds", polys |-> << <<BoxR>> >>], [t |-> "MultiPolygon", polys |-> << <<SmallTri>>, <<Far>> >>],
-           [t |-> "MultiPolygon", polys |-> << <<Quad, Hole>> >>] }
+           [t |-> "MultiPolygon", polys |-> << <<Quad, Hole>> >>], [t |-> "Polygon", polys |-> << <<Outer6, SliverH>> >>] }
 RingsOf(P) == LET RECURSIVE Cat(_)
                   Cat(i) == IF i > Len(P.polys) THEN <<>> ELSE P.polys[i] \o Cat(i + 1)
               IN Cat(1)
@@ -52,7 +56,8 @@ Many == {[kind |-> "clip", lines |-> ls, ml |-> TRUE, poly |-> [t |-> ty, polys 
 (* lines all of whose vertices are inside P while P is not convex / has a hole / has two members: the line may leave P
    between its vertices (every 2-vertex line of the lattice, and 3-vertex lines thinned by M3 / 8) *)
 Tricky == { [t |-> "Polygon", polys |-> << <<Concave>> >>], [t |-> "Polygon", polys |-> << <<Quad, Hole>> >>],
-            [t |-> "MultiPolygon", polys |-> << <<SmallTri>>, <<Far>> >>], [t |-> "MultiPolygon", polys |-> << <<Quad, Hole>> >>] }
+            [t |-> "MultiPolygon", polys |-> << <<SmallTri>>, <<Far>> >>], [t |-> "MultiPolygon", polys |-> << <<Quad, Hole>> >>],
+            [t |-> "Polygon", polys |-> << <<Outer6, SliverH>> >>] }
 L2all == TLCEval({s \in [1..2 -> Grid] : s[1] # s[2]})
 L3m == TLCEval({s \in [1..3 -> Grid] : HashL(s, 1) % (M3 \div 8) = 2 /\ Simple(s)})
 AllInside(l, P) == \A i \in 1..Len(l) : InRings(l[i], RingsOf(P))
